@@ -1217,12 +1217,6 @@ def finding_id(c, impl_obs, kind):
     if c["kind"] == "mutate":
         return f"mutate-{c['use']}:{c.get('tag')}"
     if c["kind"] == "call":
-        # known findings: Pipeline.run discovers a missing / surplus keyword only while / after running user functions
-        if isinstance(impl_obs, list) and len(impl_obs) == 3 and impl_obs[0] == "rejected" and impl_obs[2] > 0:
-            if impl_obs[1] == "ValueError":
-                return "run-missing-input-after-calls"
-            if impl_obs[1] == "UnusedParametersError":
-                return "run-surplus-input-after-calls"
         return f"call:{c.get('tag')}"
     return f"{c['kind']}:{c.get('tag')}"
 
